@@ -207,7 +207,7 @@ class MpscbEngine(Engine):
     model_file = "Chan/MpscB.v"
 
     def n_cases(self, tier):
-        return 2500 if tier == "quick" else 60000
+        return 1000 if tier == "quick" else 60000
 
     # -- case format
     def split(self, line):
